@@ -125,15 +125,25 @@ def _lit(l):
                l_keyprefix=S(l["signingKeyPrefix"]))
 
 
-_UNIT = {"ns": 1, "us": 10**3, "ms": 10**6, "s": 10**9, "m": 60 * 10**9, "h": 3600 * 10**9}
+_UNIT = {"ns": 1, "us": 10**3, "\u00b5s": 10**3, "\u03bcs": 10**3, "ms": 10**6, "s": 10**9, "m": 60 * 10**9, "h": 3600 * 10**9}
 
 
 def _dur(s):
-    """time.ParseDuration for the plain forms the generator uses; unparsable = 0 (no ttl), as CreateFromSpec does"""
+    """time.ParseDuration, exact (fractions included): the model's ttl is the configured duration in ns;
+    unparsable = 0 (no ttl), as CreateFromSpec does. Cross-checked against Go's value in encode()."""
     import re
-    if not re.fullmatch(r"(\d+(ns|us|ms|s|m|h))+", s or ""):
+    from fractions import Fraction
+    s = s or ""
+    if s == "0":
         return 0
-    return sum(int(n) * _UNIT[u] for n, u in re.findall(r"(\d+)(ns|us|ms|s|m|h)", s))
+    sign = 1
+    if s[:1] in ("+", "-"):
+        sign, s = (-1 if s[0] == "-" else 1), s[1:]
+    tok = r"(\d+\.?\d*|\.\d+)(ns|us|\u00b5s|\u03bcs|ms|s|m|h)"
+    if not s or not re.fullmatch("(%s)+" % tok, s):
+        return 0
+    total = sum(Fraction(n) * _UNIT[u] for n, u in re.findall(tok, s))
+    return sign * int(total)
 
 
 def _cfg(c):
@@ -207,6 +217,8 @@ def _encode_etcd(i, o):
     for op in i["ops"] or []:
         if op["op"] == "update":
             steps.append(C("SUpdate", _ecreds([] if op.get("nil") else op.get("users"))))
+        elif op["op"] == "reload":
+            steps.append("SReload")
         else:
             if k >= len(obs_steps):
                 short = True
@@ -233,6 +245,8 @@ def encode(c):
         req = Rec(r_method=S(v["method"]), r_escpath=S(v["escPath"]), r_query=_mmap(v["query"]), r_host=S(v["host"]),
                   r_headers=_mmap(v["headers"]), r_payload=SX(v["payload"]),
                   r_cookie="None" if v.get("cookie") is None else "(Some %s)" % S(v["cookie"]))
+    if o.get("delivered") and i["cfg"].get("sig") and _dur(i["cfg"]["sig"]["ttl"]) != o.get("ttlNs"):
+        raise ValueError("ttl %r: encoder parses %d ns, time.ParseDuration %r ns" % (i["cfg"]["sig"]["ttl"], _dur(i["cfg"]["sig"]["ttl"]), o.get("ttlNs")))
     ob = Rec(ob_invalid=B(res.get("res") == "invalid"), ob_other=B(res.get("res", "") not in ("", "invalid")),
              ob_status=Z(res.get("status", 0)), ob_by=N(res.get("by", 0)), ob_panic=B(res.get("panic", False)))
     return Rec(v_cfg=_cfg(i["cfg"]), v_req=req, v_now=Z(o.get("nowNs", 0)), v_jnow=Z(i["jnow"]), v_tabs=_tables(o.get("tabs")),
